@@ -105,12 +105,18 @@ type c08Env struct {
 	gate   *c08Gate
 	store  *c08GatedLogStore
 	caseNo int
+	// shut tears the backend down and removes its directory (idempotent; also registered as a test cleanup)
+	shut    func()
+	written int64 // bytes handed to raft by units that recycle the backend (raft-large)
 }
 
 func c08NewEnv(t *testing.T) *c08Env {
 	base := ""
 	if st, err := os.Stat("/dev/shm"); err == nil && st.IsDir() {
 		base = "/dev/shm"
+	}
+	if d := os.Getenv("VERIF_SCRATCH"); d != "" { // the driver's per-run directory, removed when the run ends
+		base = d
 	}
 	dir, err := os.MkdirTemp(base, "verif-c08-")
 	if err != nil {
@@ -140,19 +146,24 @@ func c08NewEnv(t *testing.T) *c08Env {
 	g := &c08Gate{tokens: make(chan struct{}, 1024)}
 	g.open.Store(true)
 	b.SetFSMApplyCallback(g.callback)
-	t.Cleanup(func() {
-		store.letGo()
-		g.open.Store(true)
-		for i := 0; i < 64; i++ {
-			select {
-			case g.tokens <- struct{}{}:
-			default:
+	var once sync.Once
+	shut := func() {
+		once.Do(func() {
+			store.letGo()
+			g.open.Store(true)
+			for i := 0; i < 64; i++ {
+				select {
+				case g.tokens <- struct{}{}:
+				default:
+				}
 			}
-		}
-		_ = b.TeardownCluster(nil)
-		_ = b.Close()
-	})
-	e := &c08Env{b: b, gate: g, store: store}
+			_ = b.TeardownCluster(nil)
+			_ = b.Close()
+			_ = os.RemoveAll(dir)
+		})
+	}
+	t.Cleanup(shut)
+	e := &c08Env{b: b, gate: g, store: store, shut: shut}
 	if !c08Until(func() bool { return b.raft.AppliedIndex() >= 2 }) {
 		t.Fatalf("harness: raft did not come up")
 	}
